@@ -296,7 +296,7 @@ func (rn *runner) evalDeadline(dl *DeadlineJob) ([]dlFinding, map[string]int) {
 			req += fmt.Sprintf(" %d 0 %d", c.now, c.now+until)
 			want = append(want, fmt.Sprintf("grace=%d ctx=%d", grace, c.now+until-2*grace))
 		}
-		if ans := rn.ask(req); ans != strings.Join(want, " | ") {
+		if ans := rn.ask(req); ans != strings.Join(want, " | ") && rn.m != nil {
 			add("correspondence", "model/history", "the model of the calls as the source makes them (run_calls_now; the generated constant says whether the grace period is a local of RunT) differs from what a fresh process computes for each call", ans, strings.Join(want, " | "))
 		}
 	}
@@ -406,9 +406,11 @@ func (rn *runner) evalCall(dl *DeadlineJob, untilMs int, scripts []DlScript, cr 
 		ans := rn.ask(fmt.Sprintf("deadline %d 0 %s %s %d %s %s", until, e, in, sigma, waitok, b01(s.Neg)))
 		mf := map[string][2]string{}
 		parts := strings.Split(ans, " | ")
-		if len(parts) != 3 {
+		haveModel := len(parts) == 3
+		if !haveModel {
+			// the direct oracles below still apply (with the message as the source is known to have it)
 			add("correspondence", "model/answer", "unusable model answer", ans, "")
-			continue
+			parts = []string{"msg=" + rn.msgHex(), "", ""}
 		}
 		for _, kv := range strings.Fields(parts[0]) {
 			k, v, _ := strings.Cut(kv, "=")
@@ -423,13 +425,13 @@ func (rn *runner) evalCall(dl *DeadlineJob, untilMs int, scripts []DlScript, cr 
 			}
 		}
 		msg, _ := hex.DecodeString(mf["msg"][0])
-		if g, _ := strconv.ParseInt(mf["grace"][0], 10, 64); g != grace {
+		if g, _ := strconv.ParseInt(mf["grace"][0], 10, 64); haveModel && g != grace {
 			add("correspondence", "model/grace", "grace period of the model differs from max(100ms, until/20)", mf["grace"][0], fmt.Sprint(grace))
 		}
-		if mf["trace"][0] != "1" || mf["trace"][1] != "1" {
+		if haveModel && (mf["trace"][0] != "1" || mf["trace"][1] != "1") {
 			add("correspondence", "model/trace", "the model's timed run is not accepted by its own interleaving system", ans, "")
 		}
-		if mf["srcverdict"] != mf["verdict"] {
+		if haveModel && mf["srcverdict"] != mf["verdict"] {
 			add("correspondence", "model/source-attribution", fmt.Sprintf("%sscript %s (%s): with the attribution rule read from the source (does the helper goroutine's value win whatever cmd.Wait returned?) the model reports something else than with the intended rule", where, s.Name, s.Mode), fmt.Sprint(mf["verdict"]), fmt.Sprint(mf["srcverdict"]))
 		}
 		timedOut := o.Verdict == "FAIL" && len(msg) > 0 && strings.Contains(o.Log, string(msg))
@@ -511,7 +513,7 @@ func (rn *runner) evalCall(dl *DeadlineJob, untilMs int, scripts []DlScript, cr 
 			}
 			lo, _ := strconv.ParseInt(mf["int"][0], 10, 64)
 			hi, _ := strconv.ParseInt(mf["int"][1], 10, 64)
-			if q < lo-earlyTol || q > hi+lateTol {
+			if haveModel && (q < lo-earlyTol || q > hi+lateTol) {
 				add("correspondence", "model/interrupt-window", fmt.Sprintf("%sscript %s: interrupt at %d ms outside the model's window", where, s.Name, q/msNs), mf["int"][0]+".."+mf["int"][1], fmt.Sprint(q))
 			}
 		} else if blocked && (isTrap(s.Mode) || s.Mode == "ignore") && (handlerInPlace || !hasReady && start > 0 && start < ctxAt-150*msNs) {
@@ -527,7 +529,7 @@ func (rn *runner) evalCall(dl *DeadlineJob, untilMs int, scripts []DlScript, cr 
 			if q, ok := hl["quit"]; ok {
 				// is (interrupt at q, return at end) a run of the timed automaton with slack sigma?
 				counts["timed-automaton:asked"]++
-				if a := rn.ask(fmt.Sprintf("ta %d %d %d %d %d", ctxAt, grace, sigma, q, end)); !strings.HasPrefix(a, "accepted=1") {
+				if a := rn.ask(fmt.Sprintf("ta %d %d %d %d %d", ctxAt, grace, sigma, q, end)); haveModel && !strings.HasPrefix(a, "accepted=1") {
 					add("correspondence", "model/timed-automaton", fmt.Sprintf("%sscript %s: interrupt at %d ms and return at %d ms (context at %d ms, killDelay %d ms) is not a run of the timed automaton with slack %d ms", where, s.Name, q/msNs, end/msNs, ctxAt/msNs, grace/msNs, sigma/msNs), a, "")
 				}
 			}
@@ -536,7 +538,7 @@ func (rn *runner) evalCall(dl *DeadlineJob, untilMs int, scripts []DlScript, cr 
 			}
 		}
 		// the model: result kind and return window
-		if mf["res"][0] == mf["res"][1] && (blocked || early) {
+		if haveModel && mf["res"][0] == mf["res"][1] && (blocked || early) {
 			wantTO := mf["verdict"][0] == "timed-out"
 			if wantTO != timedOut && mf["verdict"][0] == mf["verdict"][1] {
 				add("correspondence", "model/verdict", fmt.Sprintf("%sscript %s (%s): model says %s", where, s.Name, s.Mode, mf["verdict"][0]), mf["verdict"][0], o.Verdict)
@@ -576,7 +578,8 @@ func (rn *runner) msgHex() string {
 			return v
 		}
 	}
-	return ""
+	// without the model: the message cmdExec is known to use
+	return hex.EncodeToString([]byte("test timed out while running command"))
 }
 
 // quickScripts: scripts that finish at once, for the calls of a history that are not measured.
